@@ -977,6 +977,10 @@ func c14owed(tk []string, kept *[]byte) (kind, want string, called bool) {
 		if c14IsBad(s) {
 			return "error", "", true
 		}
+		if tag == "Ack" {
+			// acknowledged without a message: the reply the handler produced is the empty one
+			return "reply", c14showReply(&C14Reply{}), true
+		}
 		if s == c14NilReply {
 			// the handler produced no reply and no error: the property does not say how that is rendered
 			return "any", "", true
@@ -993,7 +997,7 @@ func c14owed(tk []string, kept *[]byte) (kind, want string, called bool) {
 		return "error", "", false
 	}
 	if tk[1] == "ws" {
-		tag := map[string]string{"C14Echo": "Echo", "C14Swap": "Swap", "C14Key": "Key", "C14Keep": "Keep", "C14Both": "BothWs"}[tk[4]]
+		tag := map[string]string{"C14Echo": "Echo", "C14Swap": "Swap", "C14Key": "Key", "C14Keep": "Keep", "C14Both": "BothWs", "C14Ack": "Ack"}[tk[4]]
 		if tag == "" {
 			return "error", "", false
 		}
@@ -1468,6 +1472,9 @@ func (g *c14gen) wsPath() string {
 	case 2, 3, 4:
 		return "C14Swap"
 	case 5:
+		if r.Intn(2) == 0 {
+			return "C14Ack" // acknowledged without a message
+		}
 		return "C14Both" // registered for both APIs, with different functions
 	case 6:
 		return []string{"C14Post", "C14Put", "C14Empty"}[r.Intn(3)] // registered for REST only: no websocket path
@@ -1790,6 +1797,19 @@ func c14genCases(c *h.Ctx, yield func(*h.Case)) {
 		emit(cs)
 	}
 
+	{
+		// a handler with an interface return type that acknowledges without a message (nil, nil): the
+		// reply is empty — not the request's own bytes (seed C14r7-B) — whatever the request carried
+		cs := &h.Case{Class: "corpus:ack-without-message"}
+		enc := func(a int64, s string) string {
+			b, _ := protobuf.Encode(&C14Echo{A: a, S: s, B: []byte{7, 8, 9}})
+			return h.Hex(b)
+		}
+		cs.Ops = append(cs.Ops, "c14 ws t1 k1 C14Ack "+enc(5, "five"), "c14 ws t1 k1 C14Echo "+enc(6, "six"), "c14 ws t1 o1 C14Ack "+enc(-7, "seven"),
+			"c14 ws t1 k1 C14Ack "+enc(8, "fail"), "c14 ws t1 k1 C14Ack "+enc(9, c14NilReply), "c14 ws t1 r1 C14Ack "+enc(10, "ten"),
+			"c14 ws t1 r1 C14Ack "+enc(11, "panic"), "c14 barrier", "c14 direct C14Ack "+enc(12, "twelve"), "c14 direct C14Ack "+enc(13, "panicint"))
+		emit(cs)
+	}
 	{
 		// what a registration accepts: every function of the table on the websocket API, and the REST
 		// checks in their order
